@@ -1,3 +1,4 @@
+import re
 """C13 -- the hash array is an insertion-ordered map under every operation sequence (protocol clauses)."""
 from qlib import astq, dataflow
 from qlib.model import AnalysisBroken
@@ -21,6 +22,7 @@ META = {
     "not_decided": "map semantics over operation histories (lookup results, iteration order)",
     "assumptions": ["Memory::AlignSize returns a power of two >= its argument (checked under C14's memory rules)"],
 }
+META["explanation"] += " " + '(SB-keypair) a key object is forwarded as (First(), Length()) of the same object, never as First() alone. PR-rehash additionally: copyTable records as size the counter stepped once per constructed item; after a range Dispose of items every path rebuilds or clears the chains.'
 META["explanation"] += " " + "PR-capacity's guard form is decided on the CFG: the insert is dominated by the test Size() == Capacity() and reached over its false edge or, over its true edge, only after expand(). (HC-confirm) an equality with a stored hash decides a match only together with a key comparison."
 
 HT = "Qentem::HashTable::"
@@ -259,6 +261,48 @@ def run(ctx):
             inits = astq.calls(f, "Initialize")
             ok = len(a) == 1 and len(mv) == 1 and len(inits) == 1 and inits[0] in set(f.walk(f.nodes[mv[0]]["then"]))
             r.ob(f.q, "only live items move", ok, "items are copied/moved into the fresh block only under Hash != 0", "Include/HashTable.hpp:%d" % f.line)
+            # the size recorded afterwards is the number of items constructed: a counter stepped next to the Initialize call
+            # (not the source's slot count, which includes removed entries)
+            if inits and mv and name == "copyTable":
+                guard_then = set(f.walk(f.nodes[mv[0]]["then"]))
+                stepped = set(f.text(f.nodes[x]["ch"][0]) for x in guard_then if f.nodes[x]["k"] == "UnaryOperator" and f.nodes[x]["op"] == "++" and f.nodes[f.strip(f.nodes[x]["ch"][0])].get("tk") != "ptr")
+                sets = [c for c in astq.calls(f, "setSize")]
+                arg = f.text(f.strip_casts(f.call_args(sets[-1])[0])) if sets else None
+                ok_sz = bool(sets) and arg in stepped
+                r.ob(f.q, "size = items constructed", ok_sz, "setSize(%s): %s" % (arg, "a counter stepped once per constructed item" if ok_sz else
+                     "not the count of constructed items (counters stepped with Initialize: %s): removed entries of the source would be counted as live, never-constructed slots" % sorted(stepped)),
+                     f.loc(sets[-1]) if sets else "Include/HashTable.hpp:%d" % f.line)
+    # items dropped from the storage may still be referenced by chain links: after a range Dispose every path rebuilds or clears
+    # the chains (resize / generateHash / zeroed or released bucket heads) before the function returns
+    REBUILD = {"resize", "generateHash", "SetToZero", "Deallocate", "clearHashTable", "Reset"}
+    for f in m.functions:
+        if f.inst or f.cls not in owners or not f.cfg or f.kind == "dtor":
+            continue
+        for c in astq.calls(f, "Dispose"):
+            if len(f.call_args(c)) != 2:
+                continue
+            ctx.note_fn(f)
+            blocks_ = f.blocks()
+            rb = {}
+            for x in astq.calls(f):
+                if (f.call_simple_name(x) or "") in REBUILD:
+                    rb.setdefault(dataflow.block_of(f, x), []).append(x)
+            cb = dataflow.block_of(f, c)
+            ok = cb in rb     # in the same straight-line block, before or after the drop (Clear zeroes the heads first)
+            if not ok:
+                seen_, work_ = set(), [s_ for (s_, k_, p_) in dataflow.successors(f, blocks_[cb])]
+                ok = True
+                while work_:
+                    b_ = work_.pop()
+                    if b_ in seen_ or b_ in rb:
+                        continue
+                    seen_.add(b_)
+                    if b_ == f.cfg["exit"]:
+                        ok = False
+                        break
+                    work_ += [s_ for (s_, k_, p_) in dataflow.successors(f, blocks_[b_])]
+            r.ob(f.sig, f.text(c)[:60], ok, "after the items are dropped every path %s" % ("rebuilds or clears the chains" if ok else
+                 "does NOT rebuild the chains: a link that still names a dropped slot survives, and a later insert into that slot is reached through the wrong chain"), f.loc(c))
     g = m.fn(HT + "generateHash")
     ctx.note_fn(g)
     loops = astq.nodes_of(g, "WhileStmt")
@@ -359,7 +403,32 @@ def run(ctx):
         r.ob(rn.q, "clear Next after unlink", bool(unl) and bool(clr) and unl[0] < clr[0], "Next is cleared after its old value was used to patch the source chain", rn.loc(inner[0]))
     rules.append(r)
     rules.append(rule_hash_confirm(ctx, m))
+    rules.append(rule_key_pair(ctx, m))
     return rules
+
+
+def rule_key_pair(ctx, m, files=("HashTable.hpp", "HArray.hpp", "HList.hpp", "Value.hpp")):
+    """SB-keypair: keys are arbitrary unit sequences (embedded NULs included), so a key object is handed on as the pair
+    (key.First(), key.Length()) -- or as the object itself -- never as key.First() alone (the callee would measure it again up to
+    the first NUL)."""
+    r = Rule("SB-keypair", "a key object is forwarded as (First(), Length()) of the same object, never as First() alone", floor=20)
+    for f in m.functions:
+        if f.inst or not any(f.file.endswith("/" + x) for x in files):
+            continue
+        pn = {p_["n"] for p_ in f.params if p_.get("ref") and re.search(r"Key_T|String|StringView|StringT|StringViewT", p_["t"])}
+        if not pn:
+            continue
+        for c in astq.calls(f):
+            args = f.call_args(c)
+            texts = [f.text(f.strip_casts(a)).replace(" ", "") for a in args]
+            for t in texts:
+                mm = re.match(r"^(\w+)\.First\(\)$", t)
+                if mm and mm.group(1) in pn:
+                    ctx.note_fn(f)
+                    ok = (mm.group(1) + ".Length()") in texts
+                    r.ob(f.sig, f.text(c)[:70], ok, "`%s.First()` is passed %s" % (mm.group(1), "together with its Length()" if ok else
+                         "without its Length(): the callee measures the text again and stops at the first NUL, so \"ab\\0cd\" is taken for \"ab\""), f.loc(c))
+    return r
 
 
 def rule_hash_confirm(ctx, m):
